@@ -35,7 +35,7 @@ OPEN_STATEMENTS = [
     '(exhaustive over all admissible term pairs on 4 modes)',
     'trivially_double_commutes_dual_basis soundness holds only outside finding F07 (tdc_dual_sound_partial); '
     'trivially_double_commutes_dual_basis_using_term_info: oracle only',
-    'bch_expand: exactness proved by kernel computation for orders <= 5 only (no general-order Dynkin '
+    'bch_expand: exactness proved by kernel computation for orders <= 6 only (no general-order Dynkin '
     'theorem); lifting from the free nilpotent algebra to every nilpotent algebra (universal property) '
     'and the multi-operator splitting are not formalised (oracle: exact rational nilpotent matrices)',
 ]
